@@ -109,6 +109,7 @@ func (cp *commandPipeline) applyEntries(entries []myraft.Entry) error {
 			return fmt.Errorf("commandPipeline: apply without handler")
 		}
 		resp, applyErr := cp.applier(req)
+		verifObserveApply(cp, entry, req, resp, applyErr)
 		if applyErr != nil {
 			requestID := req.GetHeader().GetRequestId()
 			cp.completeProposal(requestID, nil, applyErr)
